@@ -161,14 +161,24 @@ fn effects_debug_single_names() {
 
 macro_rules! effects_debug_names_case {
     ($name:ident, $mask:expr) => {
+        effects_debug_names_case!($name, $mask, false);
+    };
+    ($name:ident, $mask:expr, $exact:expr) => {
         /// For every effect set within the mask the debug text names exactly the members,
         /// in declaration order.
         #[kani::proof]
         #[kani::unwind(18)]
         fn $name() {
             use core::fmt::Write as _;
-            let a = any_effect_bits();
-            kani::assume(a & !$mask == 0);
+            // `$exact`: the set is a compile-time constant (separators, order and structure of
+            // multi-member sets at negligible cost); otherwise every subset of the mask
+            let a: u16 = if $exact {
+                $mask
+            } else {
+                let a = any_effect_bits();
+                kani::assume(a & !$mask == 0);
+                a
+            };
             let ea = effects_from_bits(a);
             let mut t = DebugTokens {
                 stage: 0,
@@ -182,17 +192,22 @@ macro_rules! effects_debug_names_case {
             assert!(t.ok && t.stage == 3, "debug text structure");
             assert!(t.seen == a, "debug text names exactly the members");
             kani::cover!(a == $mask);
-            kani::cover!(a == 0);
-            kani::cover!(a.count_ones() == 2);
+            kani::cover!(a == 0 || $exact);
+            kani::cover!(a.count_ones() == 2 || $exact);
         }
     };
 }
 // complete (all 4096 sets): needs more than 24 GB, thorough tier
 effects_debug_names_case!(effects_debug_names, 0xFFFu16);
-// quick tier: three 6-bit windows (first six, last six, three from each end)
+// 6-bit windows do not help (the 12 conditional fragments are executed symbolically whatever
+// is assumed about the bits: 23 GB each): thorough tier as well
 effects_debug_names_case!(effects_debug_names_lo, 0x03Fu16);
 effects_debug_names_case!(effects_debug_names_hi, 0xFC0u16);
-effects_debug_names_case!(effects_debug_names_ends, 0xE07u16);
+// quick tier: three concrete multi-member sets (all twelve, alternating, two members);
+// every single-member set is decided byte-exact by effects_debug_single_names
+effects_debug_names_case!(effects_debug_names_all12, 0xFFFu16, true);
+effects_debug_names_case!(effects_debug_names_alternating, 0xA55u16, true);
+effects_debug_names_case!(effects_debug_names_two, 0x801u16, true);
 
 #[kani::proof]
 #[kani::unwind(14)]
